@@ -5,4 +5,4 @@ Require Import ExtrOcamlBasic.
 From Quiver Require Import res.Own.
 Extraction Language OCaml.
 Extraction "extracted/own_model.ml" init step new_calls lookup rids_of closes
-  anyb early_reportb stale_useb stale_transferb foreign_transferb f10_scan issued memb.
+  anyb early_reportb stale_useb stale_transferb issued memb.
